@@ -124,3 +124,23 @@ func parseSemver(value string) (major, minor, patch int, err error) {
 	patch, _ = strconv.Atoi(m[3])
 	return major, minor, patch, nil
 }
+
+// compareSemverComponent numerically compares two canonical semver components
+// (decimal digit strings without leading zeros, as matched by semverRegex)
+// and returns -1, 0 or +1. It never converts to a machine integer, so it is
+// exact for components of any length.
+func compareSemverComponent(a, b string) int {
+	if len(a) != len(b) {
+		if len(a) < len(b) {
+			return -1
+		}
+		return 1
+	}
+	switch {
+	case a < b:
+		return -1
+	case a > b:
+		return 1
+	}
+	return 0
+}
